@@ -7,6 +7,7 @@
 //
 //	scrubdrv lines  <cases.ndjson> <out.ndjson> <seed> <nspell>
 //	scrubdrv writer <cases.ndjson> <out.ndjson> <seed> <nspell>
+//	scrubdrv long   <cases.ndjson> <out.ndjson> <seed> <nspell>   (spec/Scrub/ScrubLong.tla)
 //	scrubdrv conc   <cases.ndjson> <out.ndjson> <seed> <rounds>
 package main
 
@@ -1112,6 +1113,213 @@ func checkConc(w *vh.Writer, kind string, ws [][]concLine, blocks [][]byte) {
 }
 
 // ---------------------------------------------------------------------------
+// mode long: long unterminated pending data (spec/Scrub/ScrubLong.tla)
+
+type longCase struct {
+	B      int    `json:"b"`
+	D      int    `json:"d"`
+	Alen   int    `json:"alen"`
+	S      int    `json:"s"`
+	C      int    `json:"c"`
+	Pos    string `json:"pos"`
+	Expect struct {
+		Total   int `json:"total"`
+		Astart  int `json:"astart"`
+		Cut     int `json:"cut"`
+		Nwrites int `json:"nwrites"`
+		Emitat  int `json:"emitat"`
+		Blocks  int `json:"blocks"`
+	} `json:"expect"`
+}
+
+const cutClass = 999999999
+
+func digits(n int, r *vh.Rng) string {
+	b := make([]byte, n)
+	for i := range b {
+		b[i] = byte('0' + r.Intn(10))
+		if i == 0 {
+			b[i] = byte('1' + r.Intn(9))
+		}
+	}
+	return string(b)
+}
+
+func v4OfLen(n int, r *vh.Rng) string { // 7..15 bytes
+	w := [4]int{1, 1, 1, 1}
+	for left := n - 7; left > 0; {
+		i := r.Intn(4)
+		if w[i] < 3 {
+			w[i]++
+			left--
+		}
+	}
+	var o [4]string
+	for i := range o {
+		switch w[i] {
+		case 1:
+			o[i] = strconv.Itoa(r.Intn(10))
+		case 2:
+			o[i] = strconv.Itoa(10 + r.Intn(90))
+		default:
+			o[i] = strconv.Itoa(100 + r.Intn(156))
+		}
+	}
+	return strings.Join(o[:], ".")
+}
+
+func v6OfLen(n int, r *vh.Rng) string { // full form, 15..39 bytes
+	w := [8]int{1, 1, 1, 1, 1, 1, 1, 1}
+	for left := n - 15; left > 0; {
+		i := r.Intn(8)
+		if w[i] < 4 {
+			w[i]++
+			left--
+		}
+	}
+	g := make([]string, 8)
+	for i := range g {
+		lo := 1 << (4 * (w[i] - 1))
+		g[i] = fmt.Sprintf("%x", lo+r.Intn((1<<(4*w[i]))-lo))
+	}
+	return strings.Join(g, ":")
+}
+
+// addrOfLen spells an address token of exactly n bytes (7..47); the second
+// result is the IP address proper.
+func addrOfLen(n int, r *vh.Rng) (string, string) {
+	var text, ip string
+	switch {
+	case n <= 15:
+		ip = v4OfLen(n, r)
+		text = ip
+	case n <= 21:
+		pd := n - 16
+		if pd < 1 {
+			pd = 1
+		}
+		ip = v4OfLen(n-1-pd, r)
+		text = net.JoinHostPort(ip, digits(pd, r))
+	case n <= 39:
+		ip = v6OfLen(n, r)
+		text = ip
+	default:
+		pd := n - 42
+		if pd < 1 {
+			pd = 1
+		}
+		ip = v6OfLen(n-3-pd, r)
+		text = net.JoinHostPort(ip, digits(pd, r))
+	}
+	if len(text) != n || net.ParseIP(ip) == nil {
+		vh.Fatal("addrOfLen(%d) produced %q", n, text)
+	}
+	return text, ip
+}
+
+const fillerAlphabet = "ghijklmnopqrstuvwxyz-GHIJKLMNOPQRSTUVWXYZ"
+
+func doLong(raw json.RawMessage, idx int, seed uint64, nspell int, w *vh.Writer, nontrivial, evals *int64) {
+	var c longCase
+	if err := json.Unmarshal(raw, &c); err != nil {
+		vh.Fatal("bad case %d: %v", idx, err)
+	}
+	e := c.Expect
+	for s := 0; s < nspell; s++ {
+		r := vh.NewRng(caseKey(raw, seed, s))
+		addr, ip := addrOfLen(c.Alen, r)
+		// filler: words of letters and '-', no digit, ':' or '.', no newline
+		line := make([]byte, e.Total)
+		for i := range line {
+			if r.Intn(8) == 0 {
+				line[i] = ' '
+			} else {
+				line[i] = fillerAlphabet[r.Intn(len(fillerAlphabet))]
+			}
+		}
+		if e.Astart < 1 || e.Astart+c.Alen >= e.Total {
+			vh.Fatal("case %d: address does not fit", idx)
+		}
+		line[e.Astart-1] = ' '
+		copy(line[e.Astart:], addr)
+		if c.Pos == "straddle" {
+			line[e.Astart+c.Alen] = ' '
+			line[e.Astart+c.Alen+1] = 'x'
+		}
+		line[e.Total-1] = '\n'
+		if e.Astart+c.Alen+map[string]int{"straddle": 3, "end": 1}[c.Pos] != e.Total {
+			vh.Fatal("case %d: layout does not add up", idx)
+		}
+		want := string(line[:e.Astart]) + placeholder + string(line[e.Astart+c.Alen:])
+		atomic.AddInt64(evals, 1)
+		if e.Nwrites >= 2 {
+			atomic.AddInt64(nontrivial, 1)
+		}
+		report := func(sig, detail string) {
+			w.Put(vh.Result{Idx: idx, Sig: sig, Detail: detail, Case: map[string]interface{}{"case": c, "spelling": s, "address": addr}})
+		}
+		var sink sinkRec
+		ls := &safelog.LogScrubber{Output: &sink}
+		nw := 0
+		early := ""
+		for off := 0; off < len(line); {
+			n := len(line) - off
+			switch {
+			case c.C == cutClass:
+				if off == 0 {
+					n = e.Cut
+				}
+			case c.C > 0 && c.C < n:
+				n = c.C
+			}
+			got, err := ls.Write(append([]byte(nil), line[off:off+n]...))
+			if err != nil || got != n {
+				report("writer/write-result", fmt.Sprintf("Write of %d bytes = %d, %v", n, got, err))
+				return
+			}
+			off += n
+			nw++
+			if off < len(line) && early == "" && len(sink.blocks) > 0 {
+				b := sink.blocks[len(sink.blocks)-1]
+				tail := b
+				if len(tail) > 40 {
+					tail = tail[len(tail)-40:]
+				}
+				early = fmt.Sprintf("after write %d (%d of %d bytes written, no newline yet) the sink had already received %d bytes ending %q", nw, off, len(line), len(b), tail)
+			}
+		}
+		if nw != e.Nwrites {
+			vh.Fatal("case %d: %d writes, TLC says %d", idx, nw, e.Nwrites)
+		}
+		got := ""
+		for _, b := range sink.blocks {
+			got += string(b)
+		}
+		ctx := fmt.Sprintf("line of %d bytes, address %s at offset %d, chunk class %d", e.Total, addr, e.Astart, c.C)
+		if strings.Contains(got, ip) {
+			i := strings.Index(got, ip)
+			lo := i - 30
+			if lo < 0 {
+				lo = 0
+			}
+			report("survivor:long-line-address-reached-the-sink", fmt.Sprintf("%s: the address reached the sink: ...%q...; %s", ctx, got[lo:i+len(ip)], early))
+		}
+		if early != "" {
+			report("writer/partial-line-emitted", ctx+": "+early)
+			continue
+		}
+		for _, b := range sink.blocks {
+			if len(b) == 0 || b[len(b)-1] != '\n' {
+				report("writer/partial-line-emitted", ctx+": a block handed to the sink does not end a line")
+			}
+		}
+		if got != want && !strings.Contains(got, ip) {
+			report("writer/long-line-output-differs", fmt.Sprintf("%s: the sink content (%d bytes) is not the line with the address replaced (%d bytes); result depends on the write boundaries", ctx, len(got), len(want)))
+		}
+	}
+}
+
+// ---------------------------------------------------------------------------
 
 func main() {
 	if len(os.Args) < 6 {
@@ -1131,10 +1339,12 @@ func main() {
 	cov := &coverage{variants: map[string]int{}}
 	var nontrivial, evals int64
 	switch mode {
-	case "lines", "writer":
+	case "lines", "writer", "long":
 		vh.RunParallel(len(cases), 0, func(i int) {
 			if mode == "lines" {
 				doLine(cases[i], i, seed, n, w, cov, &nontrivial, &evals)
+			} else if mode == "long" {
+				doLong(cases[i], i, seed, n, w, &nontrivial, &evals)
 			} else {
 				doWriter(cases[i], i, seed, n, w, cov, &nontrivial, &evals)
 			}
